@@ -213,3 +213,56 @@ func checkC07u(c c07uCase, _ *kit.Collector) kit.Result {
 func TestC07Utils(t *testing.T) {
 	kit.Run(t, kit.Prop[c07uCase]{ID: "C07", Part: "TestC07Utils", Gen: genC07u, Check: checkC07u})
 }
+
+// ---- the same round trip while other goroutines decode other messages (a result must not depend on concurrent calls) ----
+
+type c07cCase struct {
+	Values []modelValue `json:"values"` // one per goroutine
+}
+
+var timeBearing = []string{"T0x0200", "T0x0704", "T0x1005", "T0x1205", "P0x9201", "P0x9202", "P0x9205", "P0x9206", "P0x9208", "T0x1210", "T0x0801", "T0x0100", "P0x8103"}
+
+func genC07c(t *rapid.T) c07cCase {
+	n := rapid.IntRange(2, 6).Draw(t, "goroutines")
+	c := c07cCase{}
+	for i := 0; i < n; i++ {
+		c.Values = append(c.Values, genModelValue(t, rapid.SampledFrom(timeBearing).Draw(t, "type")))
+	}
+	return c
+}
+
+func checkC07c(c c07cCase, col *kit.Collector) kit.Result {
+	res := kit.Result{Labels: []string{"concurrent_round_trips"}, NT: true}
+	errs := make([]error, len(c.Values))
+	start := make(chan struct{})
+	done := make(chan int, len(c.Values))
+	for i := range c.Values {
+		go func(i int) {
+			defer func() { done <- i }()
+			<-start
+			for k := 0; k < 10 && errs[i] == nil; k++ {
+				errs[i] = kit.Safely(func() error { return checkC07(c07Case{M: c.Values[i]}, nil).Err })
+			}
+		}(i)
+	}
+	close(start)
+	for range c.Values {
+		<-done
+	}
+	for i, e := range errs {
+		if e != nil {
+			// the single-goroutine property must hold for this value, otherwise this is C07's ordinary finding
+			if single := checkC07(c07Case{M: c.Values[i]}, nil).Err; single == nil {
+				res.Err = kit.Fail("round trip of %s fails only while %d other goroutines decode other messages: %v", c.Values[i].Type, len(c.Values)-1, e)
+			} else {
+				res.Err = single
+			}
+			return res
+		}
+	}
+	return res
+}
+
+func TestC07Concurrent(t *testing.T) {
+	kit.Run(t, kit.Prop[c07cCase]{ID: "C07", Part: "TestC07Concurrent", Gen: genC07c, Check: checkC07c})
+}
